@@ -53,6 +53,9 @@ def to_term(v, kind=None):
             else z3.RealVal(str(fr.numerator)), 'real'
         t = z3.simplify(t)
     elif isinstance(v, str):
+        import re as _re
+        if kind == 'int' and _re.fullmatch(r'a\d{8}', v):     # replayed atom (see replay.atom_str)
+            return z3.IntVal(int(v[1:]) - 50000000)
         t, k = z3.StringVal(v), 'str'
     elif isinstance(v, Fraction):
         t, k = z3.simplify(z3.RealVal(str(v.numerator)) / z3.RealVal(str(v.denominator))), 'real'
